@@ -419,3 +419,18 @@ Proof.
   - apply (embed_determines _ _ (VP.VPRanged VB.PI64 (VB.Included 0%Z, VB.Included 255%Z) VB.U8)); [reflexivity|].
     cbn [embed]. rewrite factory_u8. reflexivity.
 Qed.
+
+(** "anything else is rejected with a value error": outside the documented language the parser model answers
+    one of the three value-error kinds, [InvalidUtf8] only for ill-formed input -- for all ten names *)
+Theorem outside_reading_rejected vp s : ~ stored_reading vp s ->
+  exists k, vp_parse vp s = Some k /\ In k [EInvalidUtf8; EInvalidValue; EValueValidation] /\
+            (k = EInvalidUtf8 -> utf8_valid s = false).
+Proof.
+  intros Hn. destruct (vp_parse vp s) as [k|] eqn:E.
+  - exists k. split; [reflexivity|]. apply (ClapModel.ParseProofs.ErrorSound.vp_parse_reject_sound vp s k E).
+  - exfalso. apply Hn. apply accepts_reading. exact E.
+Qed.
+
+(** ... and conversely a rejection means the string is outside it *)
+Theorem rejected_outside_reading vp s k : vp_parse vp s = Some k -> ~ stored_reading vp s.
+Proof. intros E H. apply accepts_reading in H. unfold accepts in H. congruence. Qed.
